@@ -3610,7 +3610,11 @@ class TextWrappingSerializer(PrettySerializer):
 
         assert isinstance(node, TagNode)
 
-        name_length = len(node.local_name) + len(self._prefixes[node.namespace])
+        # a following node that is looked at may lie outside of the serialized
+        # (sub-)tree and use a namespace that no prefix was collected for
+        name_length = len(node.local_name) + len(
+            self._prefixes.get(node.namespace, "")
+        )
         if len(node) == 0:
             used_space = 3 + name_length  # <N/>
         else:
@@ -3653,7 +3657,7 @@ class TextWrappingSerializer(PrettySerializer):
             result += (
                 4  # preceding space and »="…"«
                 + len(attribute.local_name)
-                + len(self._prefixes[attribute.namespace])
+                + len(self._prefixes.get(attribute.namespace, ""))
                 + len(attribute.value.translate(CCE_TABLE_FOR_ATTRIBUTES))
             )
             if result > up_to:
